@@ -42,6 +42,20 @@ AddCol(n, e) ==
   /\ nextField' = nextField + 1 /\ everIds' = everIds \cup {nextField}
   /\ last' = [op |-> "add_column", name |-> n, setexpr |-> e]
   /\ UNCHANGED nextKey
+\* a column added by a key join (Dataset::merge): a source of <<key, value>> rows; NULL where the join finds no match
+\* (the second source matches every key that can occur and holds no NULL: lance's Dataset::merge refuses to write NULLs
+\*  into primitive columns, so a partial source is answered with an error -- which must then have no effect)
+Joins == {<<<<1, 8>>, <<3, NULL>>>>,
+          <<<<1, 8>>, <<2, 9>>, <<3, 7>>, <<4, 6>>, <<5, 0>>, <<6, 4>>, <<7, 3>>, <<8, 2>>>>}
+JoinVal(src, k) == IF \E i \in 1..Len(src) : src[i][1] = k
+                   THEN src[CHOOSE i \in 1..Len(src) : src[i][1] = k][2] ELSE NULL
+AddJoin(n, src) ==
+  /\ n \notin Names
+  /\ schema' = Append(schema, [name |-> n, id |-> nextField])
+  /\ rows' = [i \in 1..Len(rows) |-> [c \in (DOMAIN rows[i]) \cup {n} |-> IF c = n THEN JoinVal(src, rows[i].id) ELSE rows[i][c]]]
+  /\ nextField' = nextField + 1 /\ everIds' = everIds \cup {nextField}
+  /\ last' = [op |-> "join_column", name |-> n, src |-> src]
+  /\ UNCHANGED nextKey
 DropCol(n) ==
   /\ n \in NonKey /\ Cardinality(Names) > 1
   /\ schema' = SelectSeq(schema, LAMBDA f : f.name # n)
@@ -70,6 +84,7 @@ Compact ==
 
 Next == /\ steps < MaxSteps /\ steps' = steps + 1
         /\ \/ \E n \in ColNames, e \in Exprs(NonKey) : AddCol(n, e)
+           \/ \E n \in ColNames, j \in Joins : AddJoin(n, j)
            \/ \E n \in ColNames \cup {"val"} : DropCol(n)
            \/ \E n \in ColNames \cup {"val"}, m \in ColNames : Rename(n, m)
            \/ \E v \in {5, NULL} : AppendRow(v)
@@ -81,7 +96,7 @@ Spec == Init /\ [][Next]_vars
 FieldIdsUnique == \A i, j \in 1..Len(schema) : i # j => schema[i].id # schema[j].id
 NoFieldIdReuse == [][\A i \in 1..Len(schema') : (schema'[i].id \notin Ids) => schema'[i].id \notin everIds]_vars
 EvolutionPreservesOthers ==
-  [][last'.op \in {"add_column", "drop_column", "rename_column"} =>
+  [][last'.op \in {"add_column", "join_column", "drop_column", "rename_column"} =>
         /\ Len(rows') = Len(rows)
         /\ \A i \in 1..Len(rows) : \A c \in (DOMAIN rows[i]) \cap (DOMAIN rows'[i]) :
               (last'.op = "rename_column" /\ c = last'.to) \/ rows'[i][c] = rows[i][c]]_vars
